@@ -242,6 +242,17 @@ def junction_targets(tx, ev):
     for a, b in event_junctions(ev):
         if a in ends and b in starts and starts[b] > ends[a] + 1:
             out.append(ex[:ends[a] + 1] + ex[starts[b]:])
+    # alternative 5' / 3' splice site while further exons of this isoform lie between the changed exon and the flanking exon:
+    # the other form of the changed exon joined directly to the flanking exon (interjacent exons spliced out)
+    if ev['kind'] in ('A5SS', 'A3SS'):
+        F = ev['flank']
+        for cur, new in ((ev['long'], ev['short']), (ev['short'], ev['long'])):
+            if cur in ex and F in ex:
+                i, j = ex.index(cur), ex.index(F)
+                if ev['kind'] == 'A5SS' and j > i + 1:
+                    out.append(ex[:i] + [new] + ex[j:])
+                elif ev['kind'] == 'A3SS' and i > j + 1:
+                    out.append(ex[:j + 1] + [new] + ex[i + 1:])
     return out
 
 
@@ -401,6 +412,24 @@ def run_case(spec):
                     counters['unconstrained_records'] = counters.get('unconstrained_records', 0) + 1
                     continue
                 counters['constrained_records'] = counters.get('constrained_records', 0) + 1
+                if r[4] in ('<INS>', '<SUB>'):
+                    # structural invariant of every insertion / substitution: the donor segment must not repeat bases that the
+                    # transcript keeps (a spliced sequence uses every gene base at most once)
+                    at_ = r[5]
+                    d0, d1 = int(at_['DONOR_START']) - 1, int(at_['DONOR_END'])
+                    dele_ = (int(at_['START']) - 1, int(at_['END'])) if r[4] == '<SUB>' else None
+                    kept_ = set()
+                    for a_, b_ in tx.exons:
+                        kept_.update(range(a_, b_))
+                    if dele_:
+                        kept_ -= set(range(dele_[0], dele_[1]))
+                    counters['donor_overlap_checks'] = counters.get('donor_overlap_checks', 0) + 1
+                    dup_ = kept_ & set(range(d0, d1))
+                    if dup_:
+                        bad('record-donor-repeats-kept-bases',
+                            f'{r[2]} {r[4]} attrs { {k: v for k, v in at_.items() if k in ("START", "END", "DONOR_START", "DONOR_END")} } on {tid} '
+                            f'(strand {tx.gene.strand}, exons {tx.exons}): donor segment overlaps {len(dup_)} bases the transcript keeps')
+                        continue
                 if out in inter_targets:
                     counters['interjacent_records_confirmed'] = counters.get('interjacent_records_confirmed', 0) + 1
                 if out not in targets and r[4] == '<DEL>':
